@@ -115,6 +115,7 @@ type genState struct {
 	after   int
 	obj     int
 	forced  *Action // the action that must follow a short back-off delay
+	slow    map[int]bool // queues last put into a Slow back-off delay
 }
 
 // finishAction: the end of the execution open in queue q
@@ -135,6 +136,14 @@ func finishAction(r *core.Rng, p Profile, g *genState, q int) Action {
 			} else {
 				g.forced = &Action{Kind: "Elapse", Q: q}
 			}
+		} else if p.PShort > 0 && p.PStop > 0 && r.Chance(30) && !g.stopped {
+			a.Slow = true
+			if g.slow == nil {
+				g.slow = map[int]bool{}
+			}
+			g.slow[q] = true
+		} else {
+			delete(g.slow, q)
 		}
 		return a
 	}
@@ -173,8 +182,19 @@ func nextAction(r *core.Rng, p Profile, cfg []Hook, last *StepObs, g *genState) 
 				delayed = append(delayed, q.Name)
 			}
 		}
+		// Shutdown together with a cancellation of a delay its worker has not seen yet
+		if !g.stopped && p.PStop > 0 {
+			for _, q := range delayed {
+				if g.slow[q] && r.Chance(35) {
+					g.stopped = true
+					return Action{Kind: "Stop", Cancel: true, Q: q}, true
+				}
+			}
+		}
 		if len(delayed) > 0 && r.Chance(30) {
-			return Action{Kind: "Elapse", Q: delayed[r.Intn(len(delayed))]}, true
+			q := delayed[r.Intn(len(delayed))]
+			delete(g.slow, q)
+			return Action{Kind: "Elapse", Q: q}, true
 		}
 	}
 	if !g.stopped && p.PStop > 0 && r.Chance(p.PStop) {
